@@ -1,8 +1,8 @@
 #!/usr/bin/env python3
 """selftest.py [<property>|all] [--jobs N]
 Mutation self-test of the contracts (thorough tier): each mutant below is a small source change applied to a SCRATCH COPY of
-/repo/varlink/src (under $TMPDIR, removed afterwards; /repo itself is never touched).  For every mutant the check of every
-claimed property is run against the scratch copy (VX_REPO) with replay disabled:
+/repo (a detached git worktree under $TMPDIR, removed afterwards; /repo itself is never touched).  For every mutant the check of every
+claimed property is run against the scratch tree (VX_REPO), exactly as registered (replay built against that tree):
   * a property listed in `expect` must report VIOLATION (exit 1)           -> otherwise the mutant SURVIVED (weak contract)
   * a property not listed must not report VIOLATION (exit 0 or 2)          -> otherwise OVER-ALARM (false attribution)
 Prints one line per (mutant, property) that is off, and a JSON summary as last line.  Exit 0 always (it documents strength)."""
@@ -50,7 +50,7 @@ MUTANTS = [
      r"if oneway \{\s*req\.oneway = Some\(true\);\s*\} else \{\s*self\.reader = conn\.reader\.take\(\);\s*\}",
      "if oneway {\n                req.oneway = Some(true);\n            }\n            self.reader = conn.reader.take();", {"C04"}),
     ("client-busy-check-after-write", "varlink/src/lib.rs",
-     r"if conn\.reader\.is_none\(\) \|\| conn\.writer\.is_none\(\) \{\s*return Err\(context!\(ErrorKind::ConnectionBusy\)\.into\(\)\);\s*\}", "", {"C07"}),
+     r"if conn\.reader\.is_none\(\) \|\| conn\.writer\.is_none\(\) \{\s*return Err\(context!\(ErrorKind::ConnectionBusy\)\.into\(\)\);\s*\}", "", {"C07", "C04"}),
     ("client-recv-keeps-slots-on-final", "varlink/src/lib.rs",
      r"conn\.reader = self\.reader\.take\(\);\s*conn\.writer = self\.writer\.take\(\);", "conn.reader = self.reader.take();", {"C05", "C07"}),
     ("client-error-kinds-swapped", "varlink/src/lib.rs",
@@ -74,6 +74,10 @@ MUTANTS = [
     ("idle-timeout-ignores-busy", "varlink/src/server.rs", r"if pool\.num_busy\(\) == 0 \{", "if pool.num_busy() < usize::MAX {", {"C15"}),
     ("idle-countdown-never-reset-check", "varlink/src/server.rs", r"if to_wait <= wait_time \{", "if to_wait <= wait_time || to_wait > 0 {", {"C15"}),
     ("worker-keeps-going-after-error", "varlink/src/server.rs", r"let _ = stream\.shutdown\(\);\s*break;", "break;", {"C06"}),
+    ("generated-fallback-wrong-error", "varlink_stdinterfaces/src/org_varlink_service.rs",
+     r"m => call\.reply_method_not_found\(String::from\(m\)\),", "m => call.reply_method_not_implemented(String::from(m)),", {"C03"}),
+    ("generated-dispatch-swallows-missing-parameters", "varlink_stdinterfaces/src/org_varlink_service.rs",
+     r'call\.reply_invalid_parameter\("parameters"\.into\(\)\)', "Ok(())", None),
     ("listen-drops-upgrade-tail", "varlink/src/server.rs",
      r"unread = if i\.is_some\(\) \{ rest \} else \{ Vec::new\(\) \};", "let _ = rest;", {"C02", "C01"}),
 ]
@@ -82,7 +86,9 @@ MUTANTS = [
 def run_one(job):
     name, scratch, prop, builddir = job
     env = dict(os.environ, VX_REPO=scratch, VX_BUILD=builddir, VX_EVIDENCE_DIR=os.path.join(builddir, "evidence"),
-               VX_REPLAYS_DIR=os.path.join(builddir, "replays"), VX_NO_REPLAY="1", VX_THREADS="4")
+               VX_REPLAYS_DIR=os.path.join(builddir, "replays"), VX_THREADS="4")
+    if os.environ.get("VX_SELFTEST_NO_REPLAY"):
+        env["VX_NO_REPLAY"] = "1"
     p = subprocess.run([os.path.join(VERIF, "check"), prop, "--tier", "quick"], cwd=VERIF, env=env, capture_output=True, text=True, timeout=1200)
     return name, prop, p.returncode, [l for l in p.stdout.split("\n") if l.startswith(("VIOLATION", "UNDECIDED", "obligation"))][:4]
 
@@ -90,6 +96,7 @@ def run_one(job):
 def main():
     args = sys.argv[1:]
     which = args[0] if args and not args[0].startswith("--") else "all"
+    only = args[args.index("--only") + 1].split(",") if "--only" in args else None
     jobs_n = int(args[args.index("--jobs") + 1]) if "--jobs" in args else 4
     manifest = json.load(open(os.path.join(VERIF, "MANIFEST.json")))
     props = [c["property_id"] for c in manifest["checks"]]
@@ -97,13 +104,16 @@ def main():
         props = [which]
     tmp = tempfile.mkdtemp(prefix="vx-selftest-")
     results = []
+    worktrees = []
     try:
         jobs = []
         skipped = []
         for k, (name, rel, rx, repl, expect) in enumerate(MUTANTS):
+            if only and name not in only:
+                continue
             scratch = os.path.join(tmp, "m%02d" % k)
-            os.makedirs(os.path.join(scratch, "varlink"))
-            shutil.copytree(os.path.join(REPO, "varlink", "src"), os.path.join(scratch, "varlink", "src"))
+            subprocess.run(["git", "-C", REPO, "worktree", "add", "-f", "--detach", scratch, "HEAD"], capture_output=True)
+            worktrees.append(scratch)
             path = os.path.join(scratch, rel)
             text = open(path).read()
             new, n = re.subn(rx, repl, text, count=1, flags=re.S)
@@ -130,6 +140,8 @@ def main():
                 if status not in ("ok",):
                     print("%-11s %-45s %s exit=%d %s" % (status, name, prop, rc, " | ".join(lines)[:200]))
     finally:
+        for w in worktrees:
+            subprocess.run(["git", "-C", REPO, "worktree", "remove", "--force", w], capture_output=True)
         shutil.rmtree(tmp, ignore_errors=True)
     summ = {"mutants": len(MUTANTS), "not_applicable_to_current_source": skipped, "runs": len(results),
             "survived": [(r["mutant"], r["property"]) for r in results if r["status"] == "SURVIVED"],
